@@ -1351,6 +1351,20 @@ func runR93(c *Ctx) {
 			continue
 		}
 		if len(fn.AnonFuncs) == 0 {
+			// `return OtherOption(args)`: the effect is the other option's; presets are still judged
+			if want, ok := presets[fn.Name()]; ok && fn.Pkg.Pkg.Path() == rel("config/sql") {
+				pk := fname(fn) + "|dialect preset"
+				eff := optionEffects(fn, nil, 0)
+				switch {
+				case eff["EscapeChar"] != want.esc:
+					c.bad(pk, p.pos(fn.Pos()), fmt.Sprintf("the preset does not apply the dialect's escape character %q", rune(want.esc)))
+				case want.incr && eff["Incrementing"] == 0:
+					c.bad(pk, p.pos(fn.Pos()), "the preset does not select $n placeholders")
+				default:
+					c.ok(pk, p.pos(fn.Pos()), "escape character and placeholder style of the dialect are applied")
+				}
+				c.ok(fname(fn)+"|effect", p.pos(fn.Pos()), "delegates to another option")
+			}
 			continue
 		}
 		fnm := fname(fn)
@@ -1475,6 +1489,13 @@ func runR93(c *Ctx) {
 		}
 		if want, ok := presets[fn.Name()]; ok && fn.Pkg.Pkg.Path() == rel("config/sql") {
 			pk := fnm + "|dialect preset"
+			eff := optionEffects(fn, nil, 0)
+			if v, ok := eff["EscapeChar"]; ok {
+				escStored = v
+			}
+			if v, ok := eff["Incrementing"]; ok && v != 0 {
+				incrStored = true
+			}
 			switch {
 			case escStored != want.esc:
 				c.bad(pk, p.pos(fn.Pos()), fmt.Sprintf("the preset does not apply the dialect's escape character %q", rune(want.esc)))
@@ -2541,4 +2562,94 @@ func runR112(c *Ctx) {
 			c.bad(key, p.instrPos(r), "the rounding helper is not int(x + math.Copysign(0.5, x)) ("+describe(r.Results[0])+"): values are rounded in the wrong direction")
 		}
 	}
+}
+
+// optionEffects: the constant configuration fields an option constructor sets, directly in its closure or by
+// applying / returning other option constructors (argConsts: constant arguments bound to fn's parameters).
+func optionEffects(fn *ssa.Function, argConsts map[int]int64, depth int) map[string]int64 {
+	out := map[string]int64{}
+	if depth > 3 {
+		return out
+	}
+	constOfArg := func(v ssa.Value, owner *ssa.Function, fv map[*ssa.FreeVar]int) (int64, bool) {
+		if k, ok := constInt(v); ok {
+			return k, true
+		}
+		if isConstBool(v, true) {
+			return 1, true
+		}
+		if isConstBool(v, false) {
+			return 0, true
+		}
+		// a parameter of the constructor (directly, or captured by the closure)
+		var idx = -1
+		switch t := v.(type) {
+		case *ssa.Parameter:
+			for i, prm := range owner.Params {
+				if prm == t {
+					idx = i
+				}
+			}
+		case *ssa.UnOp:
+			if f, ok := t.X.(*ssa.FreeVar); ok {
+				if i, ok := fv[f]; ok {
+					idx = i
+				}
+			}
+		case *ssa.FreeVar:
+			if i, ok := fv[t]; ok {
+				idx = i
+			}
+		}
+		if idx >= 0 {
+			k, ok := argConsts[idx]
+			return k, ok
+		}
+		return 0, false
+	}
+	scan := func(f *ssa.Function, owner *ssa.Function, fv map[*ssa.FreeVar]int) {
+		eachInstr(f, func(in ssa.Instruction) {
+			switch t := in.(type) {
+			case *ssa.Store:
+				if fa, ok := t.Addr.(*ssa.FieldAddr); ok {
+					if k, ok := constOfArg(t.Val, owner, fv); ok {
+						out[fieldNameAt(fa)] = k
+					}
+				}
+			case *ssa.Call:
+				// OtherOption(args) - applied to the config or returned
+				callee := t.Call.StaticCallee()
+				if callee != nil && isOptionFuncType(t.Type()) && callee != fn {
+					ac := map[int]int64{}
+					for i, a := range t.Call.Args {
+						if k, ok := constOfArg(a, owner, fv); ok {
+							ac[i] = k
+						}
+					}
+					for k, v := range optionEffects(callee, ac, depth+1) {
+						out[k] = v
+					}
+				}
+			}
+		})
+	}
+	scan(fn, fn, nil)
+	for _, cl := range fn.AnonFuncs {
+		fv := map[*ssa.FreeVar]int{}
+		eachInstr(fn, func(in ssa.Instruction) {
+			mc, ok := in.(*ssa.MakeClosure)
+			if !ok || mc.Fn != ssa.Value(cl) {
+				return
+			}
+			for bi, b := range mc.Bindings {
+				for pi, prm := range fn.Params {
+					if b == ssa.Value(prm) || isAllocOfParam(b, prm) {
+						fv[cl.FreeVars[bi]] = pi
+					}
+				}
+			}
+		})
+		scan(cl, fn, fv)
+	}
+	return out
 }
